@@ -341,11 +341,18 @@ def bytes_to_unknown_group_element(bytes):
 
 def bytes_to_element(bytes):
     # this strictly only accepts elements in the right subgroup
+    if len(bytes) != 32:
+        raise ValueError("element must be exactly 32 bytes")
     P = bytes_to_unknown_group_element(bytes)
-    if P is Zero:
+    if P is Zero or is_extended_zero(P.XYTZ):
         raise ValueError("element was Zero")
     if not is_extended_zero(P.scalarmult(L).XYTZ):
         raise ValueError("element is not in the right group")
     # the point is in the expected 1*L subgroup, not in the 2/4/8 groups,
     # or in the 2*L/4*L/8*L groups. Promote it to a correct-group Element.
-    return Element(P.XYTZ)
+    element = Element(P.XYTZ)
+    # each element has exactly one accepted encoding: the raw bytes go into
+    # the transcript hash, so reject y >= Q and a sign bit on x == 0
+    if element.to_bytes() != bytes:
+        raise ValueError("element encoding is not canonical")
+    return element
